@@ -381,11 +381,19 @@ void campaign(Ctx& ctx)
 	ctx.rc_campaign("resolver histories (long)", gen_case(40), n / 2, 100, 2);
 }
 
+std::vector<Case> generate(Ctx& ctx, int n)
+{
+	std::vector<Case> out; rc::Random rnd(ctx.opt.seed * 8123 + 7); auto g = gen_case(20);
+	for (int i = 0; i < n; ++i) { rc::Random r = rnd.split(); out.push_back(g(r, 10 + (i % 50)).value()); }
+	return out;
+}
+
 } // namespace
 
 int main(int argc, char** argv)
 {
 	Harness h;
+	h.generate = generate;
 	h.name = "h_resolver";
 	h.run_case = run_case;
 	h.campaign = campaign;
